@@ -321,29 +321,67 @@ func c12Registration(c *Ctx, allocating map[*ssa.Function]bool) {
 		"type":   "go/ast.TypeSpec.Name(",
 		"import": "golang.org/x/tools/go/packages.Package.Name(",
 	}
-	got := map[string]*ssa.Call{}
-	for _, cs := range callsIn(pf) {
-		callee := cs.common.StaticCallee()
-		if callee == nil || !allocating[callee] || cs.value() == nil {
-			continue
-		}
-		s := newSym(L, map[string]bool{})
-		for _, t := range s.eval(cs.arg(1)) {
-			c.Notes = append(c.Notes, "ParseFile allocator argument: "+t)
-			for k, pat := range kinds {
-				if strings.Contains(t, pat) && (k == "import" || strings.Contains(t, "go/ast.Ident.Name(")) {
-					if k == "import" && !strings.Contains(t, "Package.Imports(") {
-						continue
+	// registration sites: allocator calls in ParseFile itself or in helpers it hands its pool to (the chain of call sites
+	// from ParseFile down to the allocator call is kept: guards anywhere on the chain count)
+	type regSite struct {
+		inner *ssa.Call   // the allocator call
+		chain []*ssa.Call // chain[0] is the call in ParseFile (== inner when the allocator call is in ParseFile)
+	}
+	got := map[string]*regSite{}
+	var search func(fn *ssa.Function, chain []*ssa.Call, depth int)
+	search = func(fn *ssa.Function, chain []*ssa.Call, depth int) {
+		for _, cs := range callsIn(fn) {
+			callee := cs.common.StaticCallee()
+			if callee == nil || cs.value() == nil {
+				continue
+			}
+			if !allocating[callee] {
+				// a module helper that receives the caller's own pool parameter
+				if depth < 3 && callee.Pkg == pf.Pkg && len(callee.Blocks) > 0 {
+					passesPool := false
+					for _, a := range cs.common.Args {
+						if p, isP := resolve(a).(*ssa.Parameter); isP && p.Parent() == fn && strings.HasSuffix(p.Type().String(), "internal/kessoku.VarPool") {
+							passesPool = true
+						}
 					}
-					got[k] = cs.value()
+					if passesPool && callee != pf && !calleeIs(c, cs, genPkg, "(*Parser).findInjectDirectives") {
+						c.seen(fnName(callee))
+						search(callee, append(append([]*ssa.Call{}, chain...), cs.value()), depth+1)
+					}
+				}
+				continue
+			}
+			if p, isP := resolve(cs.arg(0)).(*ssa.Parameter); !isP || p.Parent() != fn {
+				continue // not the pool handed down from ParseFile
+			}
+			s := newSym(L, map[string]bool{})
+			for _, t := range s.eval(cs.arg(1)) {
+				c.Notes = append(c.Notes, "ParseFile allocator argument: "+t)
+				for k, pat := range kinds {
+					if strings.Contains(t, pat) && (k == "import" || strings.Contains(t, "go/ast.Ident.Name(")) {
+						if k == "import" && !strings.Contains(t, "Package.Imports(") {
+							continue
+						}
+						got[k] = &regSite{inner: cs.value(), chain: append(append([]*ssa.Call{}, chain...), cs.value())}
+					}
 				}
 			}
 		}
 	}
+	search(pf, nil, 0)
 	for _, k := range []string{"func", "value", "type", "import"} {
-		call := got[k]
-		if !c.check(call != nil, "C12.4", "ParseFile:register-"+k, L.pos(pf.Pos()), "ParseFile registers every package-level "+k+" name with the allocator before any name is generated", "allocator call whose argument derives from "+kinds[k]+"...)") {
+		site := got[k]
+		if !c.check(site != nil, "C12.4", "ParseFile:register-"+k, L.pos(pf.Pos()), "ParseFile registers every package-level "+k+" name with the allocator before any name is generated", "allocator call whose argument derives from "+kinds[k]+"...)") {
 			continue
+		}
+		call := site.chain[0]
+		// guards inside the helpers on the way down
+		for _, lower := range site.chain[1:] {
+			for _, iff := range controllingIfs(lower) {
+				ok, why := c12AllowedGuard(c, iff.Cond)
+				c.check(ok, "C12.4", fmt.Sprintf("ParseFile:register-%s:guard", k), L.pos(lower.Pos()),
+					"registration of "+k+" names is unconditional (guards are nil checks, type switches, loop conditions, map de-duplication or the verified previous-output test)", why)
+			}
 		}
 		// C12.5: before the search for declarations, never after
 		c.check(reachableAfter(call, find) && !reachableAfter(find, call), "C12.5", "ParseFile:register-"+k+"-before-allocation", L.pos(call.Pos()),
@@ -633,4 +671,35 @@ func c12SetMembersOfAlloc(c *Ctx, al *ssa.Alloc) (bool, string) {
 		}
 	}
 	return true, ""
+}
+
+// poolCallChains lists the calls of functions accepted by match that are made on the pool parameter of pf, in pf itself or in
+// module helpers that pf hands that pool to (depth <= 3). Each result is the chain of call sites from pf down to the call.
+func poolCallChains(c *Ctx, pf *ssa.Function, match func(*ssa.Function) bool) [][]*ssa.Call {
+	var out [][]*ssa.Call
+	var search func(fn *ssa.Function, chain []*ssa.Call, depth int)
+	search = func(fn *ssa.Function, chain []*ssa.Call, depth int) {
+		for _, cs := range callsIn(fn) {
+			callee := cs.common.StaticCallee()
+			if callee == nil || cs.value() == nil {
+				continue
+			}
+			if match(callee) {
+				if p, isP := resolve(cs.arg(0)).(*ssa.Parameter); isP && p.Parent() == fn {
+					out = append(out, append(append([]*ssa.Call{}, chain...), cs.value()))
+				}
+				continue
+			}
+			if depth < 3 && callee.Pkg == pf.Pkg && len(callee.Blocks) > 0 && callee != pf && !calleeIs(c, cs, genPkg, "(*Parser).findInjectDirectives") {
+				for _, a := range cs.common.Args {
+					if p, isP := resolve(a).(*ssa.Parameter); isP && p.Parent() == fn && strings.HasSuffix(p.Type().String(), "internal/kessoku.VarPool") {
+						search(callee, append(append([]*ssa.Call{}, chain...), cs.value()), depth+1)
+						break
+					}
+				}
+			}
+		}
+	}
+	search(pf, nil, 0)
+	return out
 }
